@@ -220,7 +220,7 @@ BagObl(px, b, den, bind, natural) ==
 (* op: what is done with the parsed substance A, all in ONE process        *)
 (*   none                                                                  *)
 (*   add      R = A + Substance(toks2); then A is observed again (A2) and  *)
-(*            toks2 is parsed again (B): operands are not altered          *)
+(*            the second operand too (B): operands are not altered         *)
 (*   mul      R = A * n; A observed again (A2)                             *)
 (*   addin    A.add(v, n) in place, observed as R; afterwards toks2 (B)    *)
 (*            and toks itself (C) are parsed afresh: what was done to one  *)
